@@ -262,10 +262,13 @@ namespace BitSerializer::Csv::Detail
 			mValueIndex = it - mHeaders.cbegin();
 		}
 
-		const auto& valueMeta = mRowValuesMeta.at(mValueIndex);
+		auto& valueMeta = mRowValuesMeta.at(mValueIndex);
 		if (valueMeta.HasEscapedChars)
 		{
 			out_value = UnescapeValue(mDecodedBuffer.data() + valueMeta.Offset, mDecodedBuffer.data() + valueMeta.Offset + valueMeta.Size);
+			// The value has been decoded in-place, it should not be decoded again when it is read repeatedly
+			valueMeta.Size = out_value.size();
+			valueMeta.HasEscapedChars = false;
 		}
 		else
 		{
@@ -278,10 +281,13 @@ namespace BitSerializer::Csv::Detail
 	{
 		if (mValueIndex < mRowValuesMeta.size())
 		{
-			const auto& valueMeta = mRowValuesMeta.at(mValueIndex);
+			auto& valueMeta = mRowValuesMeta.at(mValueIndex);
 			if (valueMeta.HasEscapedChars)
 			{
 				out_value = UnescapeValue(mDecodedBuffer.data() + valueMeta.Offset, mDecodedBuffer.data() + valueMeta.Offset + valueMeta.Size);
+				// The value has been decoded in-place, it should not be decoded again when it is read repeatedly
+				valueMeta.Size = out_value.size();
+				valueMeta.HasEscapedChars = false;
 			}
 			else
 			{
